@@ -55,6 +55,9 @@ func Harness_C20_export() {
 			LastObserved: vr.Unix(vr.I64(t("last_observed")), time.UTC), MarkedPast: hOptTime(t("marked_past")),
 			NumUpdates: vr.Int(t("num_updates"), 0, 1000000), NumScheduleChanges: vr.Int(t("num_changes"), -1, 1000000), NumScheduleRewrites: vr.Int(t("num_rewrites"), -1, 1000000)}
 		for k := 0; k < S; k++ {
+			if vr.Param("ALT", 0) == 1 && i%2 == 0 {
+				break // ALT: trips 0, 2, ... have no stop times, the others S
+			}
 			s := func(c string) string { return vr.T("trip", i, ".stop", k, ".", c) }
 			trip.StopTimes = append(trip.StopTimes, StopTime{StopID: vr.Str(s("id")), ArrivalTime: hOptTime(s("arrival")), DepartureTime: hOptTime(s("departure")),
 				Track: hOptStr(s("track")), LastObserved: vr.Unix(vr.I64(s("last_observed")), time.UTC), MarkedPast: hOptTime(s("marked_past"))})
@@ -88,14 +91,18 @@ func Harness_C20_export() {
 		vr.Assert("C20.trips.cells", hRowEq(trips[1+i], want))
 	}
 	sts := vr.SplitCSV(exp.StopTimesCsv)
-	vr.Assert("C20.stop_times.rows", len(sts) == 1+T*S)
-	if len(sts) != 1+T*S {
+	total := 0
+	for i := range j.Trips {
+		total += len(j.Trips[i].StopTimes)
+	}
+	vr.Assert("C20.stop_times.rows", len(sts) == 1+total)
+	if len(sts) != 1+total {
 		return
 	}
 	vr.Assert("C20.stop_times.header", hRowEq(sts[0], []string{"trip_uid", "stop_id", "track", "arrival_time", "departure_time", "last_observed", "marked_past"}))
 	n := 1
 	for i := 0; i < T; i++ {
-		for k := 0; k < S; k++ {
+		for k := range j.Trips[i].StopTimes {
 			st := j.Trips[i].StopTimes[k]
 			want := []string{j.Trips[i].TripUID, st.StopID, hOptS(st.Track), hOptUnixStr(st.ArrivalTime), hOptUnixStr(st.DepartureTime), hUnixStr(st.LastObserved), hOptUnixStr(st.MarkedPast)}
 			vr.Assert("C20.stop_times.cells", hRowEq(sts[n], want))
